@@ -225,7 +225,7 @@ pub fn run_plan(prop: &str, mode: &str, seed: u64, scenarios: u64, seeds: u32, r
                 cases.push(MiriCase {
                     property: prop.to_string(),
                     mode: mode.to_string(),
-                    scenario_seed: seed.wrapping_mul(1000) + sc,
+                    scenario_seed: seed.wrapping_mul(1000).wrapping_add(sc),
                     miri_seeds: (0, seeds),
                     preemption_rate: rate.to_string(),
                     no_prefetch: nopf,
